@@ -108,9 +108,18 @@ def check_all(run, bench, lives, history, acting):
             run.violation("%s holds values different from its shadow after the last operation" % who,
                           dict(witness, library=got.to_json(), shadow=lv.pv.to_json()), None)
             return False
+        est, _er = harness.model_encode(fam, lv.pv)
+        if est == "undefined":
+            run.count("pack_skipped_model_undefined")
+            lv.baseline = None
+            continue
         out1 = pack_outcome(lv.pkt)
         out2 = pack_outcome(lv.pkt)
         run.count("repeated_pack_checks")
+        if "timeout" in (out1[0], out2[0]):
+            run.count("watchdog_skipped")
+            lv.baseline = None
+            continue
         if out1 != out2:
             run.violation("two consecutive pack() calls returned different results", dict(witness, first=out1, second=out2), None)
             return False
@@ -157,6 +166,9 @@ def pick_leaf(fam, pv, rng, depth=0):
 
 
 def new_leaf_value(f, rng):
+    if f.get("hint") and f["t"] in ("int", "bits"):
+        # the field steers a size / count / position: keep it small (a 4 GiB shift is a resource limit, not a property)
+        return rng.choice([0, 1, 2, 3])
     if f["t"] == "int":
         from ..spec import int_range
         lo, hi = int_range(f["n"], f.get("signed", False))
@@ -520,17 +532,19 @@ def free_part(run, benches, rng, nthreads, nops):
                 raw, oc = model.generate_input(fam, rng, maxlen=80)
                 seq = sequential_result(fam, cls, raw)
                 if seq is not None and seq[2][0] == "ok":
-                    work.append((bench, v, raw, seq))
+                    work.append((bench, v, raw, seq, pack_outcome(cls())))
     if len(work) < 4:
         return
     errors = []
     done = [0] * nthreads
 
+    import bisturi.packet as bp
+
     def body(tid):
         import random
         r = random.Random(run.seed * 7919 + tid)
         for i in range(nops):
-            bench, v, raw, seq = r.choice(work)
+            bench, v, raw, seq, default_outcome = r.choice(work)
             cls = bench.root(v)
             try:
                 p = cls.unpack(raw)
@@ -543,7 +557,14 @@ def free_part(run, benches, rng, nthreads, nops):
                     return
                 # a constructed packet of the same class, mutated and packed, must not be disturbed either
                 q = cls()
-                q.pack()
+                try:
+                    got_default = ("ok", q.pack())
+                except bp.PacketError:
+                    got_default = ("error", "packeterror")
+                if got_default != default_outcome and "timeout" not in default_outcome:
+                    errors.append({"source": driver.src_of(bench, v), "thread": tid, "default_packet_pack": repr(got_default)[:200],
+                                   "sequential": repr(default_outcome)[:200]})
+                    return
             except BaseException as e:
                 errors.append({"source": driver.src_of(bench, v), "raw": b2j(raw), "thread": tid,
                                "raised": "%s: %s" % (type(e).__name__, str(e)[:200])})
